@@ -15,13 +15,13 @@ def run(tier, seed):
     gen = [
         # every 3-call history of the reference family (remove_buffer cuts, pullup copies, moves, buffer references)
         dict(name="C15_exh3", consts=ec.consts(CORE3, 3, wa=37, wb=331, data=("bLa",), nsel=(1, 9)),
-             stride=3 if q else 1),
+             stride=6 if q else 1),
         # file segments at / across page boundaries: mmap (m=0) and read (m=1) materialisation, offsets 0, 4096, 4097 ...
         dict(name="C15_exh_pages", consts=ec.consts({"addfile", "addref", "drain", "rmbuf", "pullup", "c15"}, 2, wa=4096, wb=4097,
                                                    data=("a", "aa"), nsel=(1, 2, 9))),
         # written to a socket: every script of evbuffer_write_atmost on reference / segment chains
         dict(name="C15_exh_write", consts=ec.consts({"addfile", "addref", "evwrite", "c15"}, 2, wa=4095, wb=37, data=("aa",), nsel=(1, 9)),
-             stride=2 if q else 1),
+             stride=4 if q else 1),
         # multi-chain start states, then every 2-call history
         dict(name="C15_warm", consts=ec.consts(CORE3 | {"prependbuf", "prepend", "add"}, 4, wa=1021, wb=4099, data=("a", "bLa"), nsel=(1, 2, 9), warm=2)),
     ]
@@ -29,7 +29,7 @@ def run(tier, seed):
         gen.append(dict(name="C15_rand_%d_%d" % (wa, wb),
                         consts=ec.consts(ec.C12_ACTS | {"evwrite", "c15"}, 18 if q else 30, wa=wa, wb=wb, data=("a", "b", "aCL", "bLa"),
                                          nsel=(0, 1, 2, 3, 9), sizes=(0, 2000), maxlen=8),
-                        simulate=15 if q else 60, depth=90))
+                        simulate=8 if q else 60, depth=90))
     # open finding: its trigger is excluded above ("cyc" not in Acts) and its canonical history replayed here
     gen.append(dict(name="C15_known_cyc", consts=ec.consts({"addref", "addbufref", "addbuf", "cyc", "c15"}, 3, data=("a", "bLa")),
                     key_fn=lambda h, k, msg: "multicast-self-reference-cycle" if "teardown" in msg else None))
